@@ -5,6 +5,16 @@ from .values import (Sym, SInt, SReal, SBool, SStr, SData, SList, SObj, SExc, SO
                      Unsupported, intern, TInt, TReal, TBool, TStr, TData, TList, TObj)
 
 
+_PREDS = {}
+
+
+def opaque_pred(name):
+    from .values import TOpaque
+    if name not in _PREDS:
+        _PREDS[name] = z3.Function(f"U!{name}", TOpaque().sort(), z3.BoolSort())
+    return _PREDS[name]
+
+
 def is_sym(v):
     return isinstance(v, Sym)
 
@@ -72,6 +82,12 @@ def type_of(v, reg=None):
         return TStr(False)
     if isinstance(v, SObj) and reg is not None and v.cls in reg.classes:
         return TObj(reg.classes[v.cls])
+    if isinstance(v, SOpaque):
+        from .values import TOpaque
+        return TOpaque(v.tag)
+    if type(v).__name__ == "SDictV":
+        from .dicts import TDict
+        return TDict()
     return None
 
 
@@ -101,6 +117,8 @@ def to_bool_term(v):
         return True
     if isinstance(v, (SObj, SExc)):
         return True
+    if isinstance(v, SOpaque):
+        return opaque_pred("truthy")(v.t)
     raise Unsupported(f"truthiness of {v!r}")
 
 
@@ -170,6 +188,8 @@ def eq(a, b, ctx):
             return v.ty.dt.is_none(v.t)
         if isinstance(v, SStr) and v.optional:
             return v.t == -1
+        if isinstance(v, SOpaque):
+            return opaque_pred("is_none")(v.t)     # an opaque value may be None
         return False
     if not is_sym(a) and not is_sym(b) and not _contains_sym(a) and not _contains_sym(b):
         return a == b
@@ -196,6 +216,9 @@ def eq(a, b, ctx):
         return a is b
     if isinstance(a, SOpaque) and isinstance(b, SOpaque):
         return a.t == b.t
+    if type(a).__name__ == "SDictV" or type(b).__name__ == "SDictV":
+        from .dicts import TDict
+        return TDict().unwrap(a, ctx) == TDict().unwrap(b, ctx)
     if isinstance(a, (list, tuple)) and isinstance(b, (list, tuple)):
         if type(a) is not type(b) or len(a) != len(b):
             return False
